@@ -226,6 +226,37 @@ def txid(ctx, prog):
     want = sorted(["self._raw = None", "self._raw_sans_segwit = None", "self._raw_outputs = None", "self.ref.reset()"])
     ctx.ob("C05-D3/CACHE", set(want) <= set(body), rst.site(), "_reset clears the three serialisation caches and the cached hash/id", detail="" if body == want else str(body),
            func=rst.fi.qualname, key="C05-D3/CACHE|reset-all")
+    R.lazy_cache(ctx, "C05-D3/LAZY", ctx.fa(f"{T}.TXRefMutable.id"), "_id", "txid", lambda v: norm_text(v) == "hexlify(self.hash[::-1]).decode()")
+    R.lazy_cache(ctx, "C05-D3/LAZY", ctx.fa(f"{T}.TXRefMutable.hash"), "_hash", "tx hash", lambda v: norm_text(v) == "sha256(sha256(self.tx.raw_sans_segwit))")
+    R.lazy_cache(ctx, "C05-D3/LAZY", ctx.fa(f"{T}.Transaction.raw"), "_raw", "raw bytes", lambda v: norm_text(v) == "self._serialize()")
+    rss = ctx.fa(f"{T}.Transaction.raw_sans_segwit")
+    R.lazy_cache(ctx, "C05-D3/LAZY", rss, "_raw_sans_segwit", "witness-free bytes", lambda v: norm_text(v) == "self._serialize(sans_segwit=True)", extra_ok=["self.is_segwit_flag"])
+    for r_ in rss.stmts(ast.Return):
+        if dotted(r_.value) == "self.raw":
+            R.exact_gate(ctx, "C05-D3/LAZY", rss, r_, "not self.is_segwit_flag", "a transaction without witness data is hashed over its raw bytes", key="C05-D3/LAZY|sans|legacy")
+    se_ = ctx.fa(f"{T}.Transaction._serialize")
+    dflt = {a.arg: d for a, d in zip(reversed(se_.node.args.args), reversed(se_.node.args.defaults))}
+    ok = is_const(dflt.get("with_inputs"), True) and is_const(dflt.get("sans_segwit"), False)
+    ctx.ob("C05-D1/DEP", ok, se_.site(), "_serialize() by default writes the inputs", func=se_.fi.qualname, key="C05-D1/DEP|serialize-defaults")
+    r_ = R.single_return_value(se_)
+    ok = r_ is not None and norm_text(r_.value) == "stream.get_bytes()" and [norm_text(x.value) for x in se_.stmts(ast.Assign) if any(dotted(tg) == "stream" for tg in x.targets)] == ["BCDataStream()"]
+    ctx.ob("C05-D1/DEP", ok, se_.site(), "what is returned is the bytes of that very stream (a fresh BCDataStream)", func=se_.fi.qualname, key="C05-D1/DEP|serialize-returns")
+    ad_ = ctx.fa(f"{T}.Transaction._add")
+    ex, new = ad_.fi.params()[1:3]
+    loops = ad_.stmts(ast.For)
+    ok = len(loops) == 1 and dotted(loops[0].iter) == new and not R.atomic_facts_at(ad_, loops[0].body[0])[0]
+    if ok:
+        v = dotted(loops[0].target)
+        bt = [norm_text(x) for x in loops[0].body]
+        want = [f"{v}.tx_ref = self.ref", f"{v}.position = len({ex})", f"{ex}.append({v})"]
+        ok = [x for x in bt if x in want] == want
+    ctx.ob("C05-D1/DEP", ok, ad_.site(), "every added input/output gets this transaction's ref and the next position, then joins the list (position before append: positions are 0-based)",
+           func=ad_.fi.qualname, key="C05-D1/DEP|add")
+    for c in ad_.calls(dotted_name="self._reset"):
+        R.exact_gate(ctx, "C05-D3/CACHE", ad_, c, ad_.fi.params()[3], "…and the caches are reset whenever asked", key="C05-D3/CACHE|add-reset-exact")
+    rs_f = ctx.fa(f"{B}._read_struct")
+    for r_ in rs_f.stmts(ast.Return):
+        R.exact_gate(ctx, "C05-D2/TABLE", rs_f, r_, "value", "a value is unpacked whenever bytes were read", key="C05-D2/TABLE|read-struct-exact")
     rr = ctx.fa(f"{T}.TXRefMutable.reset")
     body = sorted(R.top_level_texts(rr))
     ctx.ob("C05-D3/CACHE", {"self._hash = None", "self._id = None"} <= set(body), rr.site(), "ref.reset clears hash and id", func=rr.fi.qualname)
